@@ -86,10 +86,14 @@ pub fn tie_heavy(t: &mut Tape) -> MapSpec {
     if t.chance(1, 4) {
         let a = t.range(1, 9) as f64;
         let b = t.range(1, 2) as f64;
+        // half of them at the microscopic scale; the other half puts the chain on top of equal one-second
+        // durations at any scale from 1e-15 ms to hundreds of ms (mantissa 1/2/3/5/7), so a comparison with a
+        // tolerance - whatever its threshold - meets neighbours inside and extremes outside of it
+        let (base, scale) = if t.coin() { (0.0, 1e-16) } else { (1000.0, *t.pick(&[1.0, 2.0, 3.0, 5.0, 7.0]) * 10f64.powi(t.range(0, 17) as i32 - 15)) };
         let mut at = 0.0;
         for (i, tl) in spec.timing.iter_mut().enumerate() {
             tl.time = at;
-            at += (a + b * i as f64) * 1e-16;
+            at += base + (a + b * i as f64) * scale;
         }
         for o in spec.objects.iter_mut() {
             o.time = 0.0;
@@ -397,7 +401,7 @@ pub fn property() -> Property {
         id: "C01",
         subchecks: vec![SubCheck {
             name: "history-invariant",
-            rule: "pool of 2-3 maps (map 0 always tie-heavy: >=2 distinct beat lengths with exactly equal accumulated duration, equal start times; a quarter instead near-ties at 1e-16 ms scale, a sixth all-zero durations with two beat lengths starting at the same effective time) ; in a fifth of the pools the second map has 3-5 fractional breaks and a drain time exactly on a whole-second boundary) x 3 Difficulty specs x 2 score specs x history of 6-40 ops over the public surface (decode via bytes+str (a third of the pools contains a text with a malformed trailing slider line), bpm x16 + fresh decode, convert by value/ref/mut, difficulty, strains, performance, gradual difficulty drain, gradual performance walk, attribute builder). Invariant: whenever an op key recurs (immediately or after ops on other maps) its canonical result is bit-identical to the first; no op modifies a map passed by reference (== against a snapshot after every op). Non-trivial: a recurrence separated by an op on another map, tie-heavy map has >=2 objects and >=2 beat lengths. The driver additionally runs the same seeded histories in two separate processes and compares digests (sub-check cross-process).",
+            rule: "pool of 2-3 maps (map 0 always tie-heavy: >=2 distinct beat lengths with exactly equal accumulated duration, equal start times; a quarter instead near-tie chains (neighbouring durations closer than the extremes) at 1e-16 ms scale or, on top of equal one-second durations, at any scale from 1e-15 ms to hundreds of ms, a sixth all-zero durations with two beat lengths starting at the same effective time) ; in a fifth of the pools the second map has 3-5 fractional breaks and a drain time exactly on a whole-second boundary) x 3 Difficulty specs x 2 score specs x history of 6-40 ops over the public surface (decode via bytes+str (a third of the pools contains a text with a malformed trailing slider line), bpm x16 + fresh decode, convert by value/ref/mut, difficulty, strains, performance, gradual difficulty drain, gradual performance walk, attribute builder). Invariant: whenever an op key recurs (immediately or after ops on other maps) its canonical result is bit-identical to the first; no op modifies a map passed by reference (== against a snapshot after every op). Non-trivial: a recurrence separated by an op on another map, tie-heavy map has >=2 objects and >=2 beat lengths. The driver additionally runs the same seeded histories in two separate processes and compares digests (sub-check cross-process).",
             quick: 8000,
             thorough: 60_000,
             tape_len: 2600,
